@@ -16,6 +16,25 @@ TECHNIQUE = "jaxpr output avals vs spec tree + jaxpr->SMT symbolic execution (z3
 ASSUMPTIONS = C.STUB_ASSUMPTIONS
 
 
+class _Prefixed:
+    """Recorder view that prefixes obligation names (several structure checks in one job must not share names)"""
+
+    def __init__(self, R, prefix):
+        self._R, self._p = R, prefix
+
+    def structural(self, name, ok, detail=None):
+        return self._R.structural(self._p + name, ok, detail)
+
+    def __getattr__(self, n):
+        return getattr(self._R, n)
+
+    def __setattr__(self, n, v):
+        if n in ("_R", "_p"):
+            object.__setattr__(self, n, v)
+        else:
+            setattr(self._R, n, v)
+
+
 def obs_bounds(H):
     env = H.env
 
@@ -29,7 +48,10 @@ def obs_bounds(H):
     return f
 
 
-def structure(R, env, name):
+def structure(R, env, name, prefix=""):
+    _st = R.structural
+    if prefix:
+        R = _Prefixed(R, prefix)
     key = jax.random.PRNGKey(0)
     st, ts = jax.eval_shape(env.reset, key)
     bad = D.spec_struct_ok(env.observation_spec, ts.observation)
@@ -85,12 +107,46 @@ def run_struct_only(R, name, default=False):
     structure(R, env, name + ("@default" if default else ""))
 
 
+def run_struct_rewards(R, name):
+    """every reward function shipped in the environment's reward module (not only the default one): structure/shape/dtype of
+    reward, discount and observation against the specs, from the IR's own output types (holds for all inputs)"""
+    import importlib
+    import inspect
+    env0 = configs.make(name)
+    pkg = type(env0).__module__.rsplit(".", 1)[0]
+    try:
+        mod = importlib.import_module(pkg + ".reward")
+    except ImportError:
+        R.structural("environment has a reward module", True)
+        return
+    base_cls = getattr(mod, "RewardFn", None)
+    n = 0
+    for cname, cls in inspect.getmembers(mod, inspect.isclass):
+        if cls.__module__ != mod.__name__ or inspect.isabstract(cls) or cls is base_cls or (base_cls is not None and not issubclass(cls, base_cls)):
+            continue
+        try:
+            fn = cls()
+        except TypeError:
+            continue      # needs constructor arguments: covered through the default configuration only
+        try:
+            env = configs.make(name, reward_fn=fn)
+        except TypeError:
+            R.note(f"{name}: constructor does not take reward_fn")
+            return
+        structure(R, env, f"{name}[reward_fn={cname}]", prefix=f"reward_fn={cname}: ")
+        n += 1
+    R.bound(config=name, reward_functions=n)
+    R.sample({"config": name, "reward_functions_checked": n})
+
+
 def jobs(tier, seed):
     js = []
     have = set()
     for name in base.available():
         cls = base.cls_of(name)
-        for cfg in cls.QUICK + (cls.THOROUGH if tier == "thorough" else []):
+        # C01_EXTRA: configurations that matter for spec bounds only (e.g. a BinPack container with pairwise DIFFERENT dimensions and
+        # height > width, so that a coordinate normalised by the wrong dimension leaves [0, 1])
+        for cfg in cls.QUICK + list(getattr(cls, "C01_EXTRA", [])) + (cls.THOROUGH if tier == "thorough" else []):
             js.append((cfg, "checks.C01", "run", {"cfg": cfg}))
             have.add(cfg.partition("@")[0])
     # IR-type structure check for every env (also those without a harness table yet) and for the default configs
@@ -99,4 +155,6 @@ def jobs(tier, seed):
     for name in configs.ALL:
         if name != "Sokoban":
             js.append((f"{name}@default/struct", "checks.C01", "run_struct_only", {"name": name, "default": True}))
+    for name in ("RubiksCube", "SlidingTilePuzzle", "Sudoku", "BinPack", "FlatPack", "Knapsack", "Connector", "CVRP", "MMST", "MultiCVRP", "Sokoban", "TSP"):
+        js.append((f"{name}/struct-reward-fns", "checks.C01", "run_struct_rewards", {"name": name}))
     return js
